@@ -140,8 +140,11 @@ def setTop : List Frame → Bytes → Bytes → List Frame
   | [], _, _ => []
   | f :: r, k, v => frameSet f k v :: r
 
-/-- varname + strconv.Itoa(n) -/
-def gen (varname : Bytes) (n : Nat) : Bytes := varname ++ F64.natDigits n
+/-- jsname(varname, use, n) = varname + "$" + use + strconv.Itoa(n): "$" cannot occur in a Soy name, so
+    generated names of different variables cannot collide -/
+def jsname (varname use : Bytes) (n : Nat) : Bytes := varname ++ [36] ++ use ++ F64.natDigits n
+
+def gen (varname : Bytes) (n : Nat) : Bytes := jsname varname [] n
 
 def makevar (s : Scope) (varname : Bytes) : Bytes × Scope :=
   let n := s.n + 1
@@ -169,16 +172,19 @@ def kIndex : Bytes := b!"$index:"
 
 def pushForRange (s : Scope) (loopVar : Bytes) : (Bytes × Bytes) × Scope :=
   let n := s.n + 1
-  let d := F64.natDigits n
-  let f := frameSet (frameSet (frameSet [] loopVar (loopVar ++ d)) (kLimit ++ loopVar) (loopVar ++ b!"Limit" ++ d)) (kIndex ++ loopVar) (loopVar ++ d)
-  ((loopVar ++ d, loopVar ++ b!"Limit" ++ d), { stack := f :: s.stack, n := n })
+  let lv := jsname loopVar [] n
+  let limit := jsname loopVar b!"Limit" n
+  let f := frameSet (frameSet (frameSet [] loopVar lv) (kLimit ++ loopVar) limit) (kIndex ++ loopVar) lv
+  ((lv, limit), { stack := f :: s.stack, n := n })
 
 def pushForEach (s : Scope) (loopVar : Bytes) : (Bytes × Bytes × Bytes × Bytes) × Scope :=
   let n := s.n + 1
-  let d := F64.natDigits n
-  let f := frameSet (frameSet (frameSet [] loopVar (loopVar ++ d)) (kLimit ++ loopVar) (loopVar ++ b!"Limit" ++ d)) (kIndex ++ loopVar) (loopVar ++ b!"Index" ++ d)
-  ((loopVar ++ d, loopVar ++ b!"List" ++ d, loopVar ++ b!"Limit" ++ d, loopVar ++ b!"Index" ++ d),
-   { stack := f :: s.stack, n := n })
+  let lv := jsname loopVar [] n
+  let list := jsname loopVar b!"List" n
+  let limit := jsname loopVar b!"Limit" n
+  let index := jsname loopVar b!"Index" n
+  let f := frameSet (frameSet (frameSet [] loopVar lv) (kLimit ++ loopVar) limit) (kIndex ++ loopVar) index
+  ((lv, list, limit, index), { stack := f :: s.stack, n := n })
 
 /-- the JS variable of the limit / index of the (innermost) loop over `loopVar` -/
 def looplimit (s : Scope) (loopVar : Bytes) : Option Bytes := s.lookup (kLimit ++ loopVar)
